@@ -16,6 +16,9 @@ CONSTANTS
   NoDotEscape = FALSE
   DecoderStrips = FALSE
   DotAnyIndent = FALSE
+  StaleDump = FALSE
+  LicMemoBySynopsis = FALSE
+  ParseMemoAliased = FALSE
 SPECIFICATION Spec
 INVARIANT DocProps
 INVARIANT HistoryKept
